@@ -42,4 +42,23 @@ TEXT = {
                        "keyed by the reference's rejection cause. " + SAN),
         "level_note": "trusts vref::dbus::unmarshal; reach is bounded by the mutators (1-2 stacked mutations of valid encodings)",
     },
+    "C04": {
+        "technique": "crash/allocation monitors (catch_unwind, shard journal, counting allocator) over hostile decode workloads; ASan + Miri layers",
+        "level_text": ("hostile byte strings are decoded by the real decoders in sharded child processes with per-case panic capture, a journal "
+                       "that identifies the case on process death (stack overflow, abort), and an allocation high-water-mark bound; decoded values "
+                       "are re-encoded. " + SAN),
+        "level_note": "a clean run means no crash on the inputs generated; reach is bounded by the mutators and the signature generator (depth <= 5)",
+    },
+    "C07": {
+        "technique": "boundary-grid workload over nesting depths with an arithmetic oracle on outcomes (encode and decode)",
+        "level_text": ("every depth vector of the boundary band (quick) or of the full 0..40 grid (thorough), in several nesting orders and both formats, "
+                       "is encoded by the real serializer and decoded from independently serialised bytes; success/failure must match the three limits"),
+        "level_note": "oracle is arithmetic on the property's three limits; over-deep inputs for the decoder come from the reference serialisers",
+    },
+    "C08": {
+        "technique": "algebraic-law monitor over generated value triples + structural equality model + conversion round trips",
+        "level_text": ("equivalence, total-order, hash-consistency, clone/owned and signature laws are asserted on generated triples of real Value objects; "
+                       "== is additionally compared with an independent structural model; std conversions round-trip"),
+        "level_note": "values containing NaN are a listed deviation (5 law signatures); everything else is judged strictly",
+    },
 }
